@@ -1,6 +1,6 @@
 (* PV.C10.Properties — the property theorems of C10 and nothing else. *)
 From Coq Require Import QArith List Bool PArith Arith.
-From PV Require Import Base.PyData Base.Expr Base.Stmts C10.Model C10.Proofs.
+From PV Require Import Base.PyData Base.Expr Base.Stmts C10.Model C10.Proofs C10.ProofsRsd.
 
 (* Expanding an expression to its full definition evaluates to the same value as executing the
    statements in order: for every statement list without a compartmental system (on which the
@@ -77,3 +77,20 @@ Theorem dependencies_total :
   forall (l : list stmt) (s : id),
     (exists D, dependencies l s = Ok D) \/ (dependencies l s = Err KeyError /\ forall st, In st l -> defines s st = false).
 Proof. exact dependencies_total_lemma. Qed.
+
+(* remove_symbol_definitions (as repaired): for EVERY program, symbol list and statement index, no
+   remaining statement has a dependency edge to a removed definition ... *)
+Theorem remove_symbol_definitions_closed :
+  forall (l : list stmt) (syms : list id) (ri : nat),
+    g_remove_closed l (rsd_remove_set l syms ri) = true.
+Proof. exact rsd_closed. Qed.
+
+(* ... and therefore the value of every symbol whose latest definition remains is unchanged. *)
+Theorem remove_symbol_definitions_preserves :
+  forall (fi : finterp) (ode : id -> list (option Q) -> option Q) (l : list stmt) (syms : list id) (ri : nat)
+         (r : env) (x : id),
+    ~ In x (dirty_after l (rsd_remove_set l syms ri)) ->
+    exec fi ode r (remove_symbol_definitions l syms ri) x = exec fi ode r l x.
+Proof.
+  intros fi ode l syms ri r x H. apply remove_safe_preserves; [apply rsd_safe | exact H].
+Qed.
